@@ -738,6 +738,7 @@ func (x *exec) doUpdate(n *simNode, op *Op, relaxedFork bool) {
 					x.viol("C10", "C10/refused-but-changed/"+exp.why, fmt.Sprintf("justified %v finalized %v", gotJ, gotF))
 				}
 				x.stop = true
+				x.partial = true // the store changed in part: the model does not follow it
 			}
 			return
 		}
